@@ -135,7 +135,7 @@ class OptEngineBase:
     """Common generate/plan/shrink machinery for the optimizer engines."""
 
     ENGINE_NAME = "simopt"
-    RUN_WALL_CAP_S = 120
+    RUN_WALL_CAP_S = 300
     FINDING_PREDICATES = {}
     COMPONENTS = {
         "real": [
